@@ -52,14 +52,6 @@ let pr_result = function
         (match r.r_parts with None -> "-" | Some ps ->
            "[" ^ String.concat ";" (List.map (fun p -> str p.p_crange ^ "/" ^ string_of_int (List.length p.p_data)) ps) ^ "]")
 
-(* is [needle] a contiguous run of [hay]? (only used to name the failing clause) *)
-let infix (needle : char list) (hay : char list) : bool =
-  let n = string_of_chars needle and h = string_of_chars hay in
-  let ln = String.length n and lh = String.length h in
-  if ln = 0 then true else
-  let rec go i = i + ln <= lh && (String.sub h i ln = n || go (i + 1)) in
-  go 0
-
 let mk_lower (hdr : char list) (low : char list) : char list -> char list =
   fun h -> if h = hdr then low
     else if all_ascii h then ascii_lower h
@@ -75,21 +67,14 @@ let boundary_of (o : result) : char list =
       else []
   | _ -> []
 
-(* which clause of the property an observation breaks *)
-let clause_of ?(hdr = [ 'x' ]) (content : char list option) (o : result) : string =
-  match o with
-  | RPanic -> "never_panics"
-  | RErr _ | RStatusOnly _ | RDir -> "full_or_206_or_416"
-  | Resp r ->
-      (match content with
-       | None -> if r.r_body <> [] then "path_under_root" else "full_or_206_or_416"
-       | Some c ->
-           let chunks = match r.r_parts with Some ps when ps <> [] -> List.map (fun p -> p.p_data) ps | _ -> [r.r_body] in
-           if not (List.for_all (fun ch -> infix ch c) chunks) then
-             (* without a Range header the whole of some OTHER file was served *)
-             (if hdr = [] && r.r_body <> [] then "path_under_root" else "never_outside_content")
-           else if r.r_status = z 206 then "206_exact_bytes"
-           else "full_or_206_or_416")
+(* the clause identifier is chosen by the extracted serve_clause / static_clause
+   (Proofs_Oracle.v: serve_clause_sound, static_clause_sound say what each means) *)
+let clause_name = function
+  | CNeverPanics -> "never_panics"
+  | CFullOr206Or416 -> "full_or_206_or_416"
+  | C206ExactBytes -> "206_exact_bytes"
+  | CNeverOutsideContent -> "never_outside_content"
+  | CPathUnderRoot -> "path_under_root"
 
 let hdr_of (t : string) = if t = "-" then [] else chars_of_hex t
 
@@ -106,14 +91,16 @@ let judge_body ins outs =
        | None -> VPropfail ("never_outside_content", "body longer than 1 MiB for content of " ^ string_of_int (List.length content) ^ " bytes")
        | Some obs ->
            let want = body_resp lower content ct (boundary_of obs) st0 hdr in
-           if not (c20_body_ok lower content ct st0 hdr obs) then
-             VPropfail (clause_of (Some content) obs,
+           (match serve_clause lower content ct st0 hdr obs with
+            | Some c ->
+             VPropfail (clause_name c,
                         Printf.sprintf "size=%d range=\"%s\" got{%s} repaired-model{%s}"
                           (List.length content) (str hdr) (pr_result obs) (pr_result want))
-           else if not (result_eqb want obs) then
+            | None ->
+           if not (result_eqb want obs) then
              VDisagree (Printf.sprintf "body size=%d range=\"%s\" got{%s} model{%s}"
                           (List.length content) (str hdr) (pr_result obs) (pr_result want))
-           else VOk (hdr <> []))
+           else VOk (hdr <> [])))
   | _ -> VDisagree "bad BODY case"
 
 let judge_static ins outs =
@@ -153,12 +140,13 @@ let judge_static ins outs =
            (try
               let want = static_resp lower fs root explicit (boundary_of obs) st0 urlpath hdr in
               let want = match res, want with (FPerm | FOther), RErr _ -> obs | _ -> want in
-              if not (c20_static_ok lower fs root explicit st0 urlpath hdr obs) then
-                let content = match res with FFile (d, _) -> Some d | _ -> None in
-                VPropfail ((match content with Some _ -> clause_of ~hdr content obs | None -> clause_of content obs),
+              match static_clause lower fs root explicit st0 urlpath hdr obs with
+              | Some c ->
+                VPropfail (clause_name c,
                            Printf.sprintf "path=\"%s\" resolves-to=\"%s\" range=\"%s\" got{%s} repaired-model{%s}"
                              (str urlpath) (str key) (str hdr) (pr_result obs) (pr_result want))
-              else if not (result_eqb want obs) then
+              | None ->
+              if not (result_eqb want obs) then
                 VDisagree (Printf.sprintf "static path=\"%s\" range=\"%s\" got{%s} model{%s}"
                              (str urlpath) (str hdr) (pr_result obs) (pr_result want))
               else VOk (match res with FFile _ -> hdr <> [] | FNotExist -> true | _ -> false)
